@@ -370,7 +370,7 @@ func c07Rows(r *vlib.Run) []c07Row {
 			Axes: []c07Axis{{7, c07Sid(r, true)}, {8, P()}, {9, P()}, {10, offL}, {11, outL}},
 			In:   in32(8), Out: c07ValOut(9, 10, 11)},
 		{Op: ReadOp, Name: "read", Res: []int{7}, SidReg: 7, SelfSentinel: true,
-			Axes: []c07Axis{{7, c07Sid(r, true)}, {8, P()}, {9, vlib.Pick(r, []uint64{0, 1, 32, c07Max}, []uint64{0, 1, 32, 4097, c07Max})}, {10, P()}, {11, offL}, {12, outL}},
+			Axes: []c07Axis{{7, c07Sid(r, true)}, {8, P()}, {9, []uint64{0, 1, 32, c07Max}}, {10, P()}, {11, []uint64{0, 1}}, {12, outL}},
 			In:   func(rg *Registers) [][2]uint64 { return [][2]uint64{{rg[8], rg[9]}} }, Out: c07ValOut(10, 11, 12)},
 		{Op: WriteOp, Name: "write", Res: []int{7}, SidReg: -1, NoneIsSuccess: true,
 			Axes: []c07Axis{{7, P()}, {8, []uint64{0, 1, 32, 4097, c07Max}}, {9, P()}, {10, []uint64{0, 1, 40, 4097, c07Max}}},
